@@ -378,8 +378,21 @@ impl Machine {
                     n += 1;
                     if let (Some(l), Ok(lit)) = (leaves.get(i), syn::parse2::<syn::LitStr>(m.mac.tokens.clone())) {
                         let kind = kind_text(l.id, l.syn, pool);
-                        if !only_spans && !lit.value().starts_with(&kind) {
-                            return Err(format!("compile_error {i} says `{}`, expected the message of leaf {i} `{kind}`", lit.value()));
+                        let mut full = kind.clone();
+                        if !l.path.is_empty() {
+                            full.push_str(" at ");
+                            full.push_str(&l.path.join("/"));
+                        }
+                        let msg = lit.value();
+                        if !only_spans && msg != kind && msg != full {
+                            return Err(format!("compile_error {i} says `{msg}`, expected the message of leaf {i}: `{kind}` or `{full}`"));
+                        }
+                        // the two conversions to compiler output must tell the same story
+                        if !only_spans && msg != diags[i].to_string() {
+                            return Err(format!("compile_error {i} says `{msg}` but syn::Error::from gives `{}` for the same leaf", diags[i]));
+                        }
+                        if spans && l.span.is_none() && msg != full {
+                            return Err(format!("compile_error {i} for an unspanned leaf says `{msg}`, expected `{full}` (path included)"));
                         }
                         if spans {
                             if let Some(sid) = l.span {
